@@ -202,6 +202,11 @@ func (f GitBranchFinder) Find(allEntries []Entry) (entries []Entry, err error) {
 			goto NEXT
 		}
 		for i, globEntry := range allEntries {
+			// Removed rules were added to the list by this loop, don't mistake them
+			// for a rule that now lives on the same lines of the same path.
+			if globEntry.State == Removed {
+				continue
+			}
 			if entry.Path.Name == globEntry.Path.Name && entry.Rule.IsSame(globEntry.Rule) {
 				allEntries[i].State = entry.State
 				allEntries[i].ModifiedLines = entry.ModifiedLines
